@@ -72,4 +72,45 @@ static inline void iora_ofs_flush(iora_ofs *s)
 #endif
   s->flushed = s->n;
 }
+
+/* ------------------------------------------------------------------ std::ifstream over an arbitrary byte sequence */
+#ifndef EOF
+#define EOF (-1)
+#endif
+#define IORA_IOS_binary 4
+#define IORA_IOS_app 1
+#define IORA_IOS_trunc 16
+/* one ghost file: exists + its bytes (arbitrary, made symbolic by the contract/harness) */
+typedef struct { bool exists; const uint8_t *p; size_t n; } iora_gfile;
+typedef struct { bool open; bool fail; bool eof; const uint8_t *p; size_t n; size_t pos; } iora_ifs;
+/* ghost: stream position at the last peek() of a good stream (the KVStore replay loop peeks exactly at record boundaries) */
+size_t G_ifs_boundary;
+static inline iora_ifs iora_ifs_open(const iora_gfile *f)
+{ iora_ifs s; s.open = f->exists; s.fail = !f->exists; s.eof = false; s.p = f->p; s.n = f->exists ? f->n : 0; s.pos = 0; return s; }
+static inline bool iora_ifs_is_open(const iora_ifs *s) { return s->open; }
+static inline bool iora_ifs_fail(const iora_ifs *s) { return s->fail; }
+static inline bool iora_ifs_eof(const iora_ifs *s) { return s->eof; }
+static inline void iora_ifs_close(iora_ifs *s) { if (!s->open) s->fail = true; s->open = false; }
+/* peek(): EOF on a failed stream (the sentry fails) and at the end of the file (sets eofbit, not failbit) */
+static inline int iora_ifs_peek(iora_ifs *s)
+{
+  if (!s->open || s->fail) return EOF;
+  G_ifs_boundary = s->pos;
+  if (s->pos >= s->n) { s->eof = true; return EOF; }
+  return s->p[s->pos];
+}
+/* tellg(): -1 on a failed stream */
+static inline int64_t iora_ifs_tellg(const iora_ifs *s) { return (!s->open || s->fail) ? (int64_t)-1 : (int64_t)s->pos; }
+/* read(dst, k): delivers exactly k bytes, or (short read) the rest of the file and sets eofbit|failbit; result = !fail() */
+static inline bool iora_ifs_read(iora_ifs *s, void *dst, size_t k)
+{
+  IORA_ASSERT(k == 0 || __CPROVER_w_ok(dst, k), "ifstream::read: destination holds k bytes");
+  if (!s->open || s->fail) { s->fail = true; return false; }
+  IORA_ASSERT(s->pos <= s->n, "ghost: read position inside the file");
+  size_t avail = s->n - s->pos;
+  if (k <= avail) { if (k > 0) memcpy(dst, s->p + s->pos, k); s->pos += k; return true; }
+  if (avail > 0) memcpy(dst, s->p + s->pos, avail);
+  s->pos = s->n; s->fail = true; s->eof = true;
+  return false;
+}
 #endif
